@@ -1,8 +1,8 @@
 package main
 
 import (
-	"go/constant"
 	"fmt"
+	"go/constant"
 	"go/token"
 	"go/types"
 	"os"
@@ -22,7 +22,8 @@ const modPath = "github.com/resgateio/resgate"
 // Prog is the loaded, type-checked program in SSA form plus the indexes the
 // rules work on. Everything is rebuilt from the working tree on every run.
 type Prog struct {
-	fieldSeen   map[string]string // anchor -> type, recorded for `resverif anchors`
+	boundMakers map[*ssa.Function][]*ssa.MakeClosure // bound-method wrapper -> the places that make the method value
+	fieldSeen   map[string]string                    // anchor -> type, recorded for `resverif anchors`
 	Dir         string
 	Fset        *token.FileSet
 	Pkgs        []*packages.Package
@@ -151,6 +152,12 @@ func (p *Prog) index() {
 				case *ssa.MakeClosure:
 					if fn, ok := x.Fn.(*ssa.Function); ok {
 						p.parent[fn] = x
+						if fn.Synthetic != "" && strings.HasSuffix(fn.Name(), "$bound") {
+							if p.boundMakers == nil {
+								p.boundMakers = map[*ssa.Function][]*ssa.MakeClosure{}
+							}
+							p.boundMakers[fn] = append(p.boundMakers[fn], x)
+						}
 					}
 				case *ssa.FieldAddr:
 					fv := fieldOfAddr(x)
@@ -233,7 +240,16 @@ func (p *Prog) Fn(name string) *ssa.Function {
 	return nil
 }
 
-// Named looks up a named type "pkg.Type".
+// FnNameOf returns the current name of the function a table names: the name
+// itself when it exists, the name of the function it resolves to when it was
+// renamed, else the name unchanged.
+func (p *Prog) FnNameOf(name string) string {
+	if f := p.Fn(name); f != nil {
+		return fnName(f)
+	}
+	return name
+}
+
 // ConstInt returns the value of an integer constant of the repository
 // ("server.stateDeleted"), or def when it is not declared.
 func (p *Prog) ConstInt(q string, def int64) int64 {
@@ -287,7 +303,7 @@ func (p *Prog) Field(q string) *types.Var {
 			if p.fieldSeen == nil {
 				p.fieldSeen = map[string]string{}
 			}
-			p.fieldSeen[q] = types.TypeString(st.Field(k).Type(), shortQual)
+			p.fieldSeen[q] = types.TypeString(st.Field(k).Type(), shortQual) + "|" + typeShape(st.Field(k).Type())
 			return st.Field(k)
 		}
 	}
@@ -300,38 +316,125 @@ func (p *Prog) Field(q string) *types.Var {
 			}
 		}
 	}
-	// renamed field: a unique field of the same struct with a similar name
+	// all fields reachable by selection: the struct's own and those promoted from embedded structs
+	var all []*types.Var
+	var collect func(st *types.Struct, depth int)
+	collect = func(st *types.Struct, depth int) {
+		for k := 0; k < st.NumFields(); k++ {
+			f := st.Field(k)
+			all = append(all, f)
+			if f.Embedded() && depth < 3 {
+				ft := f.Type()
+				if pt, ok := ft.Underlying().(*types.Pointer); ok {
+					ft = pt.Elem()
+				}
+				if es, ok := ft.Underlying().(*types.Struct); ok {
+					collect(es, depth+1)
+				}
+			}
+		}
+	}
+	collect(st, 0)
+	allFields := all
+	// when the anchor's type is on record, only fields of that type can be the renamed field
+	if want, ok := anchorFieldTypes[q]; ok {
+		var typed []*types.Var
+		for _, f := range all {
+			if anchorTypeMatches(f.Type(), want) {
+				typed = append(typed, f)
+			}
+		}
+		all = typed
+	}
+	// renamed field: a unique field with a similar name
 	var names []string
-	for k := 0; k < st.NumFields(); k++ {
-		names = append(names, st.Field(k).Name())
+	for _, f := range all {
+		names = append(names, f.Name())
 	}
 	if j := similarName(q[i+1:], names); j >= 0 {
 		p.fuzzy = append(p.fuzzy, q+" -> "+names[j])
-		return st.Field(j)
+		return all[j]
 	}
 	// renamed beyond recognition: the only field of the recorded type that is not itself a named anchor
 	if want, ok := anchorFieldTypes[q]; ok {
 		hit := -1
-		for k := 0; k < st.NumFields(); k++ {
-			if _, named := anchorFieldTypes[q[:i+1]+st.Field(k).Name()]; named {
+		for k, f := range all {
+			if _, named := anchorFieldTypes[q[:i+1]+f.Name()]; named {
 				continue
 			}
-			if types.TypeString(st.Field(k).Type(), shortQual) == want {
+			if types.TypeString(f.Type(), shortQual) == want {
 				if hit >= 0 {
 					return nil
 				}
 				hit = k
 			}
+			_ = anchorTypeMatches
 		}
 		if hit >= 0 {
 			p.fuzzy = append(p.fuzzy, q+" -> "+names[hit]+" (by type "+want+")")
-			return st.Field(hit)
+			return all[hit]
+		}
+	}
+	// the field's type itself mentions a renamed repository type: match by the shape of the type
+	if want, ok := anchorFieldShapes[q]; ok && strings.Contains(want, "~") {
+		hit := -1
+		n := 0
+		for k, f := range allFields {
+			if _, named := anchorFieldTypes[q[:i+1]+f.Name()]; named {
+				continue
+			}
+			if typeShape(f.Type()) == want {
+				hit = k
+				n++
+			}
+		}
+		if n == 1 {
+			p.fuzzy = append(p.fuzzy, q+" -> "+allFields[hit].Name()+" (by type shape "+want+")")
+			return allFields[hit]
 		}
 	}
 	return nil
 }
 
+// typeShape renders a type with the names of the repository's own named
+// types erased ("map[*github.com/nats-io/nats.go.Subscription]*~"), so that a
+// field is still recognised after the type it mentions was renamed.
+func typeShape(t types.Type) string {
+	s := types.TypeString(t, func(pk *types.Package) string {
+		if strings.HasPrefix(pk.Path(), modPath) {
+			return "~"
+		}
+		return pk.Path()
+	})
+	var b strings.Builder
+	for i := 0; i < len(s); i++ {
+		b.WriteByte(s[i])
+		if s[i] == '~' && i+1 < len(s) && s[i+1] == '.' {
+			j := i + 2
+			for j < len(s) && (s[j] == '_' || s[j] >= '0' && s[j] <= '9' || s[j] >= 'a' && s[j] <= 'z' || s[j] >= 'A' && s[j] <= 'Z') {
+				j++
+			}
+			i = j - 1
+		}
+	}
+	return b.String()
+}
+
 func shortQual(pk *types.Package) string { return pk.Name() }
+
+// anchorTypeMatches: the field has the recorded type, or a named type whose
+// underlying basic type is the recorded one (uint8 flags given a name).
+func anchorTypeMatches(t types.Type, want string) bool {
+	if types.TypeString(t, shortQual) == want {
+		return true
+	}
+	if _, isNamed := t.(*types.Named); isNamed {
+		if b, ok := t.Underlying().(*types.Basic); ok && b.Name() == want {
+			return true
+		}
+	}
+	return false
+}
 
 // similarName returns the index of the unique candidate that is the same
 // name up to case and common affixes, or contains / is contained in the
